@@ -14,9 +14,9 @@ RULE = (
 )
 ASSUMPTIONS = ["'remains unfixable' includes violations whose fixes are discarded because a TMP/PRS error blocks fixing (the path route's reading)"]
 TIMEOUT = {"quick": 900, "thorough": 1800}
-MIN_NONTRIVIAL = {"quick": 25, "thorough": 500}
+MIN_NONTRIVIAL = {"quick": 25, "thorough": 250}
 REQUIRED_COUNTERS = ["exit_codes_compared"]
-N = 1500
+N = 500
 
 USAGE = [
     (["lint", "f.sql", "--dialect", "nosuchdialect"], None),
